@@ -159,7 +159,19 @@ class Loops:
                 if m.get('kind') == 'MemberExpr':
                     decl = ex.tu.decls.get(m.get('referencedMemberDecl'))
                     if not is_const_method(decl, m.get('name')):
-                        add(m['inner'][0])
+                        c2 = S.lookup(decl['_qual'], decl['type']['qualType'], decl.get('_targs')) if decl is not None and decl.get('_qual') else None
+                        objp, _ = base(m['inner'][0])
+                        if c2 is not None and not c2.inline and objp is not None:
+                            # the callee's frame clause says which parts of the object it may modify
+                            for a in c2.assigns:
+                                parts = a.rstrip('!').split('.')
+                                if parts[0] == 'this':
+                                    pp = objp
+                                    for f_ in parts[1:]:
+                                        pp = pp.field(f_)
+                                    mods.append((ex.resolve(pp), False))
+                        else:
+                            add(m['inner'][0])
                     self_args(n, decl, n['inner'][1:])
             elif k == 'CallExpr':
                 r = callee_ref(n)
